@@ -292,6 +292,8 @@ impl GitSubprocessContext {
                 .map(|r| r.refspec.to_git_format_not_forced()),
         );
 
+        #[cfg(jj_vcs_jj_verif)]
+        crate::verif_hooks::point("git.push.before_spawn", &remote_name.as_str());
         let output = wait_with_progress(self.spawn_cmd(command)?, callback)?;
 
         parse_git_push_output(output)
